@@ -3,15 +3,16 @@
 
     [DocWf doc] is the tree invariant of a table as the harness builds it from a parsed
     document: rows reference rows, children and attributes come after their owner, a parent
-    comes before its child, a child's parent is the node that lists it, the order keys of the
-    children of one node are pairwise distinct (false on the pinned tree when two processing
-    instructions are siblings: D18 / D21), no observation failed.
+    comes before its child, a child's parent is the node that lists it (or the child has no siblings
+    at all: the value text of a DTD-default attribute reports the document type as its parent), the ids of the children of
+    one node are pairwise distinct (siblings are looked up by id), no observation failed.
 
     The section is generic in a predicate [G] on nodes that is closed under the navigation
     primitives, so that the same lemmas give "stays inside the table" ([G := valid], C06) and
     "stays among the nodes that are not namespace nodes" ([G := good], C07). *)
 From Coq Require Import List NArith Bool Lia PeanoNat.
 From XmlRs Require Import Base.CPred Base.NList Base.Float64.
+From XmlRs Require Import Spec.XPathCore Model.XPathFuncs.
 From XmlRs Require Import Model.XPathAst Model.XDoc Model.XPathScalar Model.XPathEval.
 Import ListNotations.
 Open Scope N_scope.
@@ -24,8 +25,9 @@ Record DocWf (doc : xdoc) : Prop := {
   wf_attrs : forall i a, valid doc i -> In a (attributes doc i) -> valid doc a;
   wf_nss : forall i, valid doc i -> exists l, n_nss (getd doc i) = Some l /\ Forall (valid doc) l;
   wf_parent : forall i p, valid doc i -> parent_node doc i = Some p -> valid doc p /\ p < i;
-  wf_child_parent : forall p c, valid doc p -> In c (child_nodes doc p) -> parent_node doc c = Some p;
-  wf_sibling_keys : forall p, valid doc p -> NoDup (map (key doc) (child_nodes doc p));
+  wf_child_parent : forall p c, valid doc p -> In c (child_nodes doc p) ->
+      parent_node doc c = Some p \/ (next_sibling doc c = None /\ previous_sibling doc c = None);
+  wf_sibling_ids : forall p, valid doc p -> NoDup (map (nid doc) (child_nodes doc p));
   wf_data : forall i, valid doc i -> n_data (getd doc i) <> DataErr;
   wf_name : forall i, valid doc i -> n_name (getd doc i) <> XNameErr;
   wf_docelem : forall i, valid doc i -> kind doc i = KDocument \/ kind doc i = KDocumentFragment ->
@@ -134,25 +136,25 @@ Proof.
   rewrite Forall_forall in H. apply H. exact Hx.
 Qed.
 
-(** ** sibling loops: with pairwise distinct keys the key lookup finds the node itself, so the
+(** ** sibling loops: with pairwise distinct ids the id lookup finds the node itself, so the
     loop walks down the child list of the parent *)
-Lemma skip_while_key_split (L l1 l2 : list node) (x : node) :
-  NoDup (map (key doc) L) -> L = l1 ++ x :: l2 -> skip_while_key doc (key doc x) L = x :: l2.
+Lemma skip_while_id_split (L l1 l2 : list node) (x : node) :
+  NoDup (map (nid doc) L) -> L = l1 ++ x :: l2 -> skip_while_id doc (nid doc x) L = x :: l2.
 Proof.
-  intros Hnd ->. induction l1 as [|y t IH]; cbn [app skip_while_key].
+  intros Hnd ->. induction l1 as [|y t IH]; cbn [app skip_while_id].
   - rewrite N.eqb_refl. reflexivity.
   - cbn [app map] in Hnd. inversion Hnd as [|k ks Hnin Hnd']; subst.
-    destruct (N.eqb_spec (key doc y) (key doc x)) as [E|E].
+    destruct (N.eqb_spec (nid doc y) (nid doc x)) as [E|E].
     + exfalso. apply Hnin. rewrite E. rewrite map_app. apply in_or_app. right. left. reflexivity.
     + apply IH. exact Hnd'.
 Qed.
 
-Lemma skip_while_key_suffix k (L : list node) :
-  exists l1, L = l1 ++ skip_while_key doc k L.
+Lemma skip_while_id_suffix k (L : list node) :
+  exists l1, L = l1 ++ skip_while_id doc k L.
 Proof.
-  induction L as [|y t [l1 IH]]; cbn [skip_while_key].
+  induction L as [|y t [l1 IH]]; cbn [skip_while_id].
   - exists []. reflexivity.
-  - destruct (key doc y =? k).
+  - destruct (nid doc y =? k).
     + exists []. reflexivity.
     + exists (y :: l1). cbn [app]. f_equal. exact IH.
 Qed.
@@ -165,22 +167,23 @@ Lemma sibling_step_in_list (rv : bool) (p : node) (L l1 l2 : list node) (x : nod
   step x = None \/ exists y l3, l2 = y :: l3 /\ step x = Some y.
 Proof.
   intros HL Vp Hsplit step.
-  assert (Hnd : NoDup (map (key doc) L)).
-  { pose proof (wf_sibling_keys doc Hwf p Vp) as H. rewrite HL. destruct rv; [|exact H].
+  assert (Hnd : NoDup (map (nid doc) L)).
+  { pose proof (wf_sibling_ids doc Hwf p Vp) as H. rewrite HL. destruct rv; [|exact H].
     rewrite map_rev. apply NoDup_rev. exact H. }
   assert (Hx : In x (child_nodes doc p)).
   { assert (In x L) by (rewrite Hsplit; apply in_or_app; right; left; reflexivity).
     rewrite HL in H. destruct rv; [apply in_rev; exact H|exact H]. }
-  pose proof (wf_child_parent doc Hwf p x Vp Hx) as Hpar.
+  destruct (wf_child_parent doc Hwf p x Vp Hx) as [Hpar|[Hnone1 Hnone2]];
+    [|left; unfold step; destruct rv; assumption].
   assert (Hstep : step x = if sibling_nav_kind (kind doc x)
                            then (if has_child_list (kind doc p)
-                                 then nth1 (skip_while_key doc (key doc x) L) else None)
+                                 then nth1 (skip_while_id doc (nid doc x) L) else None)
                            else None).
   { unfold step. destruct rv; unfold previous_sibling, next_sibling, sibling_child;
       rewrite Hpar, HL; reflexivity. }
   rewrite Hstep. destruct (sibling_nav_kind (kind doc x)); [|left; reflexivity].
   destruct (has_child_list (kind doc p)); [|left; reflexivity].
-  rewrite (skip_while_key_split L l1 l2 x Hnd Hsplit).
+  rewrite (skip_while_id_split L l1 l2 x Hnd Hsplit).
   destruct l2 as [|y l3]; [left; reflexivity|right]. exists y, l3. split; reflexivity.
 Qed.
 
@@ -219,13 +222,13 @@ Proof.
       destruct (sibling_nav_kind (kind doc i)); try discriminate;
       destruct (parent_node doc i) as [p|] eqn:Ep; try discriminate;
       destruct (has_child_list (kind doc p)); try discriminate.
-    - destruct (skip_while_key_suffix (key doc i) (rev (child_nodes doc p))) as [l1 Hl1].
-      destruct (skip_while_key doc (key doc i) (rev (child_nodes doc p))) as [|a [|b l2]] eqn:Es;
+    - destruct (skip_while_id_suffix (nid doc i) (rev (child_nodes doc p))) as [l1 Hl1].
+      destruct (skip_while_id doc (nid doc i) (rev (child_nodes doc p))) as [|a [|b l2]] eqn:Es;
         cbn [nth1] in Ey; try discriminate. inversion Ey; subst b.
       exists p, (rev (child_nodes doc p)), (l1 ++ [a]), l2. split; [reflexivity|split; [reflexivity|]].
       rewrite <- app_assoc. exact Hl1.
-    - destruct (skip_while_key_suffix (key doc i) (child_nodes doc p)) as [l1 Hl1].
-      destruct (skip_while_key doc (key doc i) (child_nodes doc p)) as [|a [|b l2]] eqn:Es;
+    - destruct (skip_while_id_suffix (nid doc i) (child_nodes doc p)) as [l1 Hl1].
+      destruct (skip_while_id doc (nid doc i) (child_nodes doc p)) as [|a [|b l2]] eqn:Es;
         cbn [nth1] in Ey; try discriminate. inversion Ey; subst b.
       exists p, (child_nodes doc p), (l1 ++ [a]), l2. split; [reflexivity|split; [reflexivity|]].
       rewrite <- app_assoc. exact Hl1. }
@@ -236,7 +239,7 @@ Proof.
   { intros z Hz. apply (G_children p z Gp). rewrite HL in Hz. destruct rv; [apply in_rev; exact Hz|exact Hz]. }
   assert (Hlen : (length L <= length doc)%nat).
   { apply valid_count.
-    - apply (NoDup_map_inv' (key doc)). pose proof (wf_sibling_keys doc Hwf p Vp) as H.
+    - apply (NoDup_map_inv' (nid doc)). pose proof (wf_sibling_ids doc Hwf p Vp) as H.
       rewrite HL. destruct rv; [rewrite map_rev; apply NoDup_rev; exact H|exact H].
     - apply Forall_forall. intros z Hz. apply G_valid. apply HLG. exact Hz. }
   destruct (sibling_loop_in_list rv p L HL Vp l2 l1 y (nav_fuel doc) Hsplit) as [r [Er Hr]].
@@ -324,7 +327,7 @@ Proof.
     apply IH; [exact Vc|]. unfold valid in Vc. lia. }
   assert (Hdoc : kind doc i = KDocument \/ kind doc i = KDocumentFragment ->
           exists s, match find (fun c => nkind_eqb (kind doc c) KElement) (child_nodes doc i) with
-                    | Some e => string_value_fuel f doc e | None => Err EDom end = Ok s).
+                    | Some e => string_value_fuel f doc e | None => Err XErrDom end = Ok s).
   { intros Hk. destruct (wf_docelem doc Hwf i Vi Hk) as [e [He Hke]].
     destruct (find (fun c => nkind_eqb (kind doc c) KElement) (child_nodes doc i)) as [e'|] eqn:Ef.
     - apply find_some in Ef. apply Hchild. apply Ef.
